@@ -269,7 +269,7 @@ macro_rules! build_fn {
             (1, _) => o.$flat_map(f).box_it(),
             (2, _) => o.$concat_map(f).box_it(),
             (3, _) => o.map(f).$concat_all().box_it(),
-            (_, Some(n)) => o.map(f).$merge_all((*n).max(1) as usize).box_it(),
+            (_, Some(n)) => o.map(f).$merge_all(*n as usize).box_it(),
             (_, None) => o.map(f).$flatten().box_it(),
           }
         }
@@ -632,7 +632,8 @@ pub fn gen_node(rng: &mut Rng, cfg: &GenCfg, depth: usize) -> Node {
     _ if cfg.allow_flat => {
       let k = rng.range(1, 3);
       Node::Flat {
-        n: if rng.chance(1, 3) { None } else { Some(rng.range(1, 3) as u8) },
+        // a limit of 0 (everything queued, nothing ever started) is legal input too
+        n: if rng.chance(1, 3) { None } else { Some(if rng.chance(1, 10) { 0 } else { rng.range(1, 3) as u8 }) },
         outer: Box::new(gen_node(rng, cfg, depth + 1)),
         inners: (0..k).map(|_| gen_node(rng, cfg, depth + 2)).collect(),
         form: if rng.chance(1, 2) { 0 } else { rng.range(1, 3) as u8 },
